@@ -780,6 +780,7 @@ func (c *EvalCtx) evalCall(e *SExpr) (SV, error) {
 			return SV{V: TV{ts.SelectField(ex.tm.slice, i, tv.T)}, T: types.Typ[types.Int]}, nil
 		case *types.Map:
 			m, _ := ex.reifyAny(sv.V)
+			ex.mapIs(m, u)
 			card := ex.heapGet(c.st, MapCardKey, SArray(SInt, SInt))
 			return SV{V: TV{ts.Ite(ts.Eq(m, ts.Int(0)), ts.Int(0), ts.Select(card, m))}, T: types.Typ[types.Int]}, nil
 		case *types.Array:
